@@ -30,11 +30,14 @@ structure Cfg where
   variant adds a second store — the latest lookups — which `Model.reset_cache` / `add_equation` clear but
   `SimulationScenario.reset_cache`, which empties `model.memo` directly, does not know). -/
   resetClearsAllStores : Bool
+  /-- an API call the code rejects with an exception leaves the model as it was: later edits still invalidate
+  (wave 10; the defective variant suspends cache resets during array set-ups and never resumes when the set-up raises). -/
+  rejectedIsNoOp : Bool
 deriving DecidableEq, Repr
 
 def Cfg.good (c : Cfg) : Bool :=
   c.initialValueResetsCache && c.addEquationResetsCache && c.memoizeFirstStoreWins && c.operandsThroughMemo &&
-    c.resetClearsAllStores
+    c.resetClearsAllStores && c.rejectedIsNoOp
 
 /-- Uninterpreted carrier operations: `bin 0..3` = `+ - * /`, `max0 x` = `max(0, x)`. -/
 structure Ops (α : Type) where
@@ -150,6 +153,9 @@ structure St (α : Type) where
   is recorded there too; an over-approximation of "the latest lookup per equation"). Only the scenario-level reset
   of the defective variant ever reads it. -/
   memo2 : Memo α := []
+  /-- `Model.reset_cache()` is switched off (a suspension counter left above zero): the edits of the modelling API
+  no longer empty any store. -/
+  suspended : Bool := false
 
 inductive Op (α : Type) where
   | setEq (n : Nat) (e : Expr α)        -- `element.equation = e`
@@ -160,6 +166,7 @@ inductive Op (α : Type) where
   | setPoints (p : Nat) (f : α → α)     -- `model.points["p"] = table` (f = its interpolation function); wave 2
   | sreset                              -- `SimulationScenario.reset_cache()` (bptk.reset_scenario_cache, begin/end_session); wave 8
   | rawEq (n : Nat) (e : Expr α)        -- `model.equations[n] = lambda` (scenario.setup_constants): plain dict write; wave 8
+  | rejected                            -- an API call that raises (a set-up with wrong arguments, a wrong-type value, …); wave 10
 
 def updFn {β : Type} (f : Nat → β) (n : Nat) (v : β) : Nat → β := fun i => if i = n then v else f i
 
@@ -189,22 +196,23 @@ def step {α : Type} (c : Cfg) (ops : Ops α) (s : St α) : Op α → St α
   | .setEq n e =>
       { s with eqn := updFn s.eqn n (some e)
                body := updFn s.body n (build s.dt (s.kind n) n (s.init n) (some (installed c s e)))
-               memo := [], memo2 := [] }
+               memo := if s.suspended then s.memo else [], memo2 := if s.suspended then s.memo2 else [] }
   | .setInit n e =>
       { s with init := updFn s.init n e
                body := updFn s.body n (build s.dt (s.kind n) n e (s.eqn n))
-               memo := if c.initialValueResetsCache then [] else clearOwn s.memo n
-               memo2 := if c.initialValueResetsCache then [] else clearOwn s.memo2 n }
+               memo := if s.suspended then s.memo else if c.initialValueResetsCache then [] else clearOwn s.memo n
+               memo2 := if s.suspended then s.memo2 else if c.initialValueResetsCache then [] else clearOwn s.memo2 n }
   | .addEq n e =>
       { s with body := updFn s.body n e
                memo := if c.addEquationResetsCache then [] else clearOwn s.memo n
                memo2 := if c.addEquationResetsCache then [] else clearOwn s.memo2 n }
-  | .reset => { s with memo := [], memo2 := [] }
+  | .reset => { s with memo := if s.suspended then s.memo else [], memo2 := if s.suspended then s.memo2 else [] }
   | .eval n k fuel => { s with memo := (evalK (ops.withLk s.lk) s.body fuel s.memo (n, k)).1
                                memo2 := (evalK (ops.withLk s.lk) s.body fuel s.memo (n, k)).1 }
   | .setPoints p f => { s with lk := updFn s.lk p f }      -- plain dictionary write: the memo stays as it is
   | .sreset => { s with memo := if c.resetClearsAllStores then [] else s.memo2 }
   | .rawEq n e => { s with body := updFn s.body n e }       -- plain dictionary write: no store is touched
+  | .rejected => if c.rejectedIsNoOp then s else { s with suspended := true }
 
 def run {α : Type} (c : Cfg) (ops : Ops α) (s : St α) (h : List (Op α)) : St α := h.foldl (step c ops) s
 
@@ -226,6 +234,7 @@ def settledFrom {α : Type} : Bool → List (Op α) → Bool
   | _, .reset :: r => settledFrom false r
   | _, .sreset :: r => settledFrom false r
   | _, .rawEq _ _ :: r => settledFrom true r
+  | d, .rejected :: r => settledFrom d r
 
 def settled {α : Type} (h : List (Op α)) : Bool := settledFrom false h
 
@@ -267,6 +276,7 @@ def stepSel {α : Type} (sel : St α → Nat → Nat → Bool) (ops : Ops α) (s
   | .setPoints p f => { s with lk := updFn s.lk p f }
   | .sreset => { s with memo := [] }
   | .rawEq n e => { s with body := updFn s.body n e }
+  | .rejected => s
 
 def runSel {α : Type} (sel : St α → Nat → Nat → Bool) (ops : Ops α) (s : St α) (h : List (Op α)) : St α :=
   h.foldl (stepSel sel ops) s
